@@ -7,7 +7,7 @@ META = {
     'technique': 'Lean 4 reduction theorems over a pipeline model (choosePatches, computeVulnsResult, ConstructPatches; writer correctness = C13 as a hypothesis), '
                  'correspondence of the three models with the real functions, and an end-to-end stream (real FixVulns with in-memory deps.dev universes and a local matcher, '
                  're-read, second FixVulns) judged by the Lean specification',
-    'design_ref': 'DESIGN.md §5 C12',
+    'design_ref': 'DESIGN.md §4 (section of C12), §5 (defects), §7 (seeded changes)',
     'text': 'Kernel-checked, unbounded: choosePatches returns a sublist of the computed patches, at most MaxUpgrades of them, pairwise compatible, none introducing when NoIntroduce; '
             'no vulnerability fixed by a chosen patch is marked unactionable; ConstructPatches reports exactly old∖new and new∖old, hence new = old − fixed + introduced; its update list is the '
             'requirement diff keyed by manifest ENTRY (name + npm alias / Maven type), one update per changed entry; substituting '
